@@ -48,8 +48,10 @@ def sub(b, i):
 
 
 def hkdf(inp, salt: bytes, info: bytes, length=None):
-    kw = () if length is None else (("length", length),)
-    return call(glob(HKDF), inp, const(salt), const(info), kw=kw)
+    # (the loader puts keyword arguments of package functions where the parameter stands: `length=8` is the fourth argument)
+    if length is None:
+        return call(glob(HKDF), inp, const(salt), const(info))
+    return call(glob(HKDF), inp, const(salt), const(info), length)
 
 
 def reply(k: int):
